@@ -14,8 +14,10 @@ META = {
              "redelivery: start-up succeeds, position and chain never regress, persisted votes/proposals of the resumed rounds "
              "are present, redelivery converges. Partial: 'start-up never fails' and convergence are monitored, not proved; the "
              "full convergence statement is refuted (known finding: a restarted node can be AHEAD of the uninterrupted run "
-             "because views created by a round change ignore votes stored earlier for that round); the state-machine and "
-             "engine start-up (finalization store, init-chain) are outside this model.",
+             "because views created by a round change ignore votes stored earlier for that round). State-machine half: the real "
+             "tmstate.StateMachine is restarted on the same stores inside generated and scripted histories; a Coq monitor checks that "
+             "it resumes in the round the stores prescribe ((h+1, 0) after a stored finalization of h) and never emits a vote twice "
+             "across the restart (the emission theorem is C02's); engine start-up (init-chain) is outside the models.",
     "note": "Trusted: Coq kernel; crash = the stores keep a prefix of the operation's write calls (each store method atomic); "
             "in-memory stores only; correspondence harness with write-budget store wrappers. No axioms.",
     "design_ref": "DESIGN.md 4 (C10)",
@@ -27,12 +29,19 @@ def main(argv):
     cases, crashes, results = mirrorlib.mirror_check(
         c, "C10", ["c10obs", "c10conv", "c10obs_shifted", "c10ahead", "c04", "c05"], "C10 restart",
         quick=(40, 30), thorough=(500, 40), extra=["-crashes"])
-    for k in cases:
-        if k.get("restart_failed"):
-            c.report("restart-failed", "the real mirror did not come up again after a crash: %s" % k["restart_failed"].split(" @@ ")[-1][:200],
-                     {"batch_seed": k["batch_seed"], "batch_case": k["batch_idx"],
-                      "crashed_operation": k.get("failed_op", "")[:1500],
-                      "steps_before": [{"op": op[:600], "impl_result": res} for op, res, _ in k["steps"][-6:]],
-                      "how": "bin/h_mirror -crashes -seed %d -cases %d -ops 40" % (k["batch_seed"], k["batch_idx"] + 1)})
     c.coverage["restart_failures"] = sum(1 for k in cases if k.get("restart_failed"))
+    # the state-machine half: restarts of the real tmstate.StateMachine on the same stores (model walk with Stop/Start
+    # events and the scripted restart histories of Model/SMScenarios.v): the round it resumes in is the one the stores
+    # prescribe, and nothing is emitted twice across the restart
+    import sm_common as S
+    tok, binary = S.prepare(c)
+    if binary is not None:
+        clauses = ["c10_sm_resume", "c02_one_emission_ever"]
+        n, steps = (32, 40) if c.tier == "quick" else (300, 60)
+        cov_mirror = dict(c.coverage)
+        S.walked(c, "C10", binary, "c10sm", n, steps, clauses, lambda name, evs, fl: name)
+        S.run_scenarios(c, binary, "c10sm", clauses, lambda name, evs, fl: name)
+        sm_cov = {k: c.coverage[k] for k in ("evaluations", "traces", "event_distribution", "scripted_histories") if k in c.coverage}
+        c.coverage.update(cov_mirror)
+        c.coverage["state_machine_restarts"] = sm_cov
     c.finish()
